@@ -12,6 +12,12 @@
 //	    `a == b` and vice versa, `!(c)` otherwise — no relational operator is flipped: floats);  a `continue` that is
 //	    the last statement of a loop body is dropped.
 //	N4  `strings.IndexByte(s, 'c')`  =>  `strings.Index(s, "c")` for an ASCII character literal.
+//	N5  a `continue` in TAIL position of a loop body is dropped: the last statement of the loop body is in tail
+//	    position; if a statement in tail position is a block, an `if` (with or without `else`), a `switch` or a type
+//	    switch, the last statement of each of its branches / clauses is in tail position too (a Go clause does not fall
+//	    through, so behind it control reaches the end of the loop body, which is what `continue` does; in a `for`
+//	    loop the post statement runs in both cases).  Not inside nested loops, `select` or function literals; an
+//	    `if c { continue }` without `else` is left to N3.
 package main
 
 import (
@@ -184,9 +190,56 @@ func (nz *normalizer) switchToIf(s *ast.SwitchStmt) ast.Stmt {
 	return first
 }
 
+// dropTailContinue implements N5 for a statement list whose last statement is in tail position of a loop body.
+func (nz *normalizer) dropTailContinue(list []ast.Stmt) []ast.Stmt {
+	if len(list) == 0 {
+		return list
+	}
+	switch s := list[len(list)-1].(type) {
+	case *ast.BranchStmt:
+		if s.Tok == token.CONTINUE && s.Label == nil {
+			nz.log = append(nz.log, "N5 "+nz.fn.Name.Name)
+			return list[:len(list)-1]
+		}
+	case *ast.BlockStmt:
+		s.List = nz.dropTailContinue(s.List)
+	case *ast.IfStmt:
+		for cur := s; cur != nil; {
+			if !(cur.Else == nil && isBareContinue(cur.Body.List)) {
+				cur.Body.List = nz.dropTailContinue(cur.Body.List)
+			}
+			switch e := cur.Else.(type) {
+			case *ast.BlockStmt:
+				e.List = nz.dropTailContinue(e.List)
+				cur = nil
+			case *ast.IfStmt:
+				cur = e
+			default:
+				cur = nil
+			}
+		}
+	case *ast.SwitchStmt:
+		for _, c := range s.Body.List {
+			cc := c.(*ast.CaseClause)
+			cc.Body = nz.dropTailContinue(cc.Body)
+		}
+	case *ast.TypeSwitchStmt:
+		for _, c := range s.Body.List {
+			cc := c.(*ast.CaseClause)
+			cc.Body = nz.dropTailContinue(cc.Body)
+		}
+	}
+	return list
+}
+
 // list rewrites a statement list; inLoop says whether the list is the body of a loop.
 func (nz *normalizer) list(list []ast.Stmt, loopBody bool) []ast.Stmt {
 	var out []ast.Stmt
+	if loopBody && !nz.keeps('c') && len(list) > 0 {
+		if _, bare := list[len(list)-1].(*ast.BranchStmt); !bare {
+			list = nz.dropTailContinue(list) // N5 (a bare `continue` at the end is N3's)
+		}
+	}
 	for i := 0; i < len(list); i++ {
 		st := list[i]
 		// N2 first (its result is an if statement that N1/N3 may look at)
